@@ -62,6 +62,7 @@ def run(repo, rep, tier):
     # D3
     r_ret(repo, rep)
     r_enum(repo, rep, an)
+    r_enum_norm(repo, rep)
     # D4
     r_table_shape(repo, rep)
     return "other"
@@ -280,6 +281,57 @@ def r_enum(repo, rep, an):
             if "%s.%s" % (mn, q) not in bad:
                 rep.ok("R-ENUM", "%s.%s" % (mn, q), "string dispatch exhaustive for the validated set")
     rep.floor("functions with string dispatch", n, 3)
+
+
+NORMALISERS = {"lower", "upper", "casefold", "strip", "lstrip", "rstrip", "capitalize", "title", "swapcase"}
+
+
+def enum_norm_sites(repo, funcs=None):
+    """(site, param, normalised test, raw test) for functions that compare a string parameter with literals both through a normalising
+    method (p.lower() == 'x') and raw (p == 'x') without ever rebinding p: spellings admitted by the first take the wrong branch of the second"""
+    out = []
+    n_fn = 0
+    for mn, q, fn in repo.all_functions(include_demo=False, include_nested=False):
+        if funcs is not None and (mn, q) not in funcs:
+            continue
+        params = {a.arg for a in fn.args.args + fn.args.kwonlyargs}
+        rebound = {t.id for n in ast.walk(fn) if isinstance(n, (ast.Assign, ast.AugAssign, ast.AnnAssign))
+                   for t in (n.targets if isinstance(n, ast.Assign) else [n.target]) if isinstance(t, ast.Name)}
+        norm, raw = {}, {}
+
+        def is_strs(c):
+            if isinstance(c, ast.Constant):
+                return isinstance(c.value, str)
+            return isinstance(c, (ast.Tuple, ast.List, ast.Set)) and c.elts and all(isinstance(e, ast.Constant) and isinstance(e.value, str) for e in c.elts)
+        for n in ast.walk(fn):
+            if not isinstance(n, ast.Compare) or len(n.ops) != 1 or not is_strs(n.comparators[0]):
+                continue
+            l = n.left
+            if isinstance(l, ast.Name) and l.id in params:
+                raw.setdefault(l.id, n)
+            elif isinstance(l, ast.Call) and isinstance(l.func, ast.Attribute) and l.func.attr in NORMALISERS and isinstance(l.func.value, ast.Name) \
+                    and l.func.value.id in params:
+                norm.setdefault(l.func.value.id, n)
+        if norm or raw:
+            n_fn += 1
+        # a local bound to the normalised form and compared instead (t = p.lower(); t == 'x') is fine; so is rebinding p itself
+        for p_ in sorted(set(norm) & set(raw)):
+            if p_ not in rebound:
+                out.append(("%s.%s" % (mn, q), p_, norm[p_], raw[p_]))
+    return out, n_fn
+
+
+def r_enum_norm(repo, rep, funcs=None):
+    rep.rule("R-ENUM-NORM", "a string parameter that is tested through a normalising method (lower/upper/strip ...) is never also compared raw with a literal "
+                            "(the spellings the first test admits would take the wrong branch of the second)")
+    found, n_fn = enum_norm_sites(repo, funcs)
+    for site, p_, nn, rn in found:
+        rep.violation("R-ENUM-NORM", site, "raw-after-normalised:" + p_,
+                      "`%s` is tested as `%s` (line %d) but also raw as `%s` (line %d): a spelling that only the normalised test recognises (other case, padding) passes the first and fails "
+                      "the second - the branch taken does not match the value admitted" % (p_, norm_text(nn), nn.lineno, norm_text(rn), rn.lineno),
+                      construct="line %d" % rn.lineno)
+    if not found:
+        rep.ok("R-ENUM-NORM", "string parameters", "%d function(s) compare a string parameter with literals; none mixes normalised and raw comparisons" % n_fn, sample=False)
 
 
 FIELD_FRESH = (ast.List, ast.ListComp, ast.Dict)
